@@ -239,14 +239,23 @@ Charge(Sx, q, how) ==
 MppMsats == {1500, 2999, 4001, 8000}
 MeltQuoteAct ==
   /\ On("meltquote") /\ nlq < MaxLq /\ Often(50)
-  /\ \E kind \in Pick({"ext", "ext", "int"} \cup (IF S.mpp THEN {"mpp", "mpp", "mppint"} ELSE IF Often(10) THEN {"mpp"} ELSE {})) :
+  /\ \E kind \in Pick({"ext", "ext", "int"} \cup (IF S.mpp THEN {"mpp", "mpp", "mppint"} ELSE IF Often(10) THEN {"mpp"} ELSE {})
+                      \cup (IF Sim /\ Often(25) THEN {"forged"} ELSE {})) :
        \/ /\ kind = "ext"
-          /\ \E amt \in Pick(Amts) :
-               LET a == [kind |-> "ext", target |-> "", msat |-> 0, invmsat |-> amt * 1000, amt |-> amt, unit |-> "sat"]
+          /\ \E amt \in Pick(Amts), frac \in Pick(IF Sim THEN {0, 0, 0, 1, 500, 999} ELSE {0}) :
+               \* an outside invoice need not be a whole number of sats: the quote rounds up
+               LET amt2 == IF frac = 0 THEN amt ELSE amt + 1
+                   a == [kind |-> "ext", target |-> "", msat |-> 0, invmsat |-> amt * 1000 + frac, amt |-> amt2, unit |-> "sat"]
                    ok == MeltQuoteCauses(S, a) = {}
-               IN /\ S' = IF ok THEN NewMeltQuote(S, Lq(nlq + 1), a, [amt |-> amt, reserve |-> Reserve(amt)]) ELSE S
+               IN /\ S' = IF ok THEN NewMeltQuote(S, Lq(nlq + 1), a, [amt |-> amt2, reserve |-> Reserve(amt2)]) ELSE S
                   /\ nlq' = nlq + 1
-                  /\ Record([op |-> "meltquote", kind |-> "ext", amt |-> amt])
+                  /\ Record(IF frac = 0 THEN [op |-> "meltquote", kind |-> "ext", amt |-> amt]
+                            ELSE [op |-> "meltquote", kind |-> "ext", amt |-> amt2, msat |-> amt * 1000 + frac])
+       \/ /\ kind = "forged"
+          /\ \E t \in Pick(DOMAIN S.mq) :
+               \* the model refuses; the ghost id is followed up in case the implementation does not
+               /\ S' = S /\ nlq' = nlq + 1
+               /\ Record([op |-> "meltquote", kind |-> "forged", q |-> t, msat |-> 1000])
        \/ /\ kind = "int"
           /\ \E t \in Pick({q \in DOMAIN S.mq : ~\E x \in DOMAIN S.lq : S.lq[x].target = q}) :
                LET a == [kind |-> "int", target |-> t, msat |-> 0, invmsat |-> S.mq[t].amt * 1000, amt |-> S.mq[t].amt, unit |-> "sat"]
